@@ -89,8 +89,8 @@ def instances(tier):
                                   (4, 2, 1, True), (4, 3, 1, False), (5, 2, 1, False), (4, 1, 3, False)]):
         for p in perms(n, r, full):
             out.append({'func': 'h_maxvol', 'params': {'n': n, 'r': r, 'perm': list(p), 'k': k}})
-    rect = [(3, 1, 0, 1, 1), (3, 1, 1, 2, 1), (3, 2, 0, 1, 1), (4, 2, 0, 1, 1)] if tier == 'quick' else \
-        [(3, 1, 0, 1, 1), (3, 1, 1, 2, 1), (3, 1, 0, 2, 2), (3, 2, 0, 1, 1), (3, 2, 1, 1, 1), (4, 2, 0, 2, 1),
+    rect = [(3, 1, 0, 1, 1), (3, 1, 1, 2, 1), (3, 2, 0, 1, 1), (4, 2, 0, 1, 1), (3, 1, 0, 0, 1), (3, 2, 0, 0, 1)] if tier == 'quick' else \
+        [(3, 1, 0, 1, 1), (3, 1, 1, 2, 1), (3, 1, 0, 2, 2), (3, 2, 0, 1, 1), (3, 2, 1, 1, 1), (4, 2, 0, 2, 1), (3, 1, 0, 0, 1), (4, 2, 0, 0, 1),
          (4, 2, 1, 2, 1), (4, 1, 0, 3, 1), (3, 1, 0, None, 1)]
     for (n, r, a, b, k0) in rect:
         for p in perms(n, r, False)[:2 if tier == 'quick' else 3]:
@@ -99,7 +99,7 @@ def instances(tier):
     for n, r in [(2, 2), (2, 3), (1, 1)]:
         out.append({'func': 'h_reject', 'params': {'n': n, 'r': r}})
         out.append({'func': 'h_dispatch', 'params': {'n': n, 'r': r}})
-    for n, r, a, b in [(3, 1, 2, 1), (3, 2, 2, 3), (3, 1, -1, 1)]:
+    for n, r, a, b in [(3, 1, 2, 1), (3, 2, 2, 3), (3, 1, -1, 1), (3, 1, 1, 0), (4, 2, 2, 0)]:
         out.append({'func': 'h_reject_rect', 'params': {'n': n, 'r': r, 'dr_min': a, 'dr_max': b}})
     return out
 
